@@ -415,10 +415,25 @@ def restore_lands_on_entry(ck, tm, g, rule, roots):
             eev, _, edst, ereal, alias = entries[0]
             ga, gl = guard_field(gv, None, g.addr), guard_field(gv, None, g.len)
             ok_addr = isinstance(ga, Int) and same_expr(ga.e, ereal.e)
-            ok_len = g.len_is_saved_len or (isinstance(gl, Int) and same_expr(gl.e, eev.extra["count"].e))
+            if g.len_is_saved_len:
+                # the destructor writes back everything it saved: then exactly as many bytes must have been saved as were written
+                gs = guard_field(gv, None, g.saved)
+                ok_len = isinstance(gs, VecV) and gs.content is not None and gs.content.op == "mem" and same_expr(gs.content.args[1], eev.extra["count"].e)
+                gl = Int(tm.ptr_bits, False, gs.content.args[1]) if isinstance(gs, VecV) and gs.content is not None and gs.content.op == "mem" else gl
+            else:
+                ok_len = isinstance(gl, Int) and same_expr(gl.e, eev.extra["count"].e)
+                # ... and the saved bytes it will slice `[..len]` out of are at least that many (otherwise the destructor panics on the slice
+                # before it restores or releases anything)
+                gs = guard_field(gv, None, g.saved) if g.saved else None
+                if isinstance(gs, VecV) and gs.content is not None and gs.content.op == "mem":
+                    sc = gs.content.args[1]
+                    enough = same_expr(sc, eev.extra["count"].e) or (sc.is_const() and eev.extra["count"].is_const() and sc.val >= eev.extra["count"].cval())
+                    if not enough:
+                        ok_len = False
+                        gl = Int(tm.ptr_bits, False, E("saved_only", (sc,), tm.ptr_bits))
             ck.ob(rule, "%s/restore-lands-on-the-entry-written" % rn, tm.target, ok_addr and ok_len,
                   "the guard will restore %s byte(s) at %s; the installation wrote %s byte(s) at %s" % (
-                      fmt(gl.e) if isinstance(gl, Int) else ("saved.len()" if g.len_is_saved_len else gl), fmt(ga.e, 4) if isinstance(ga, Int) else ga,
+                      fmt(gl.e) if isinstance(gl, Int) else gl, fmt(ga.e, 4) if isinstance(ga, Int) else ga,
                       fmt(eev.extra["count"].e), fmt(ereal.e, 4)), where(pev))
     ck.floor(rule, "install-paths-with-one-guard-and-one-entry-write", n, 6, tm.target)
     return n
